@@ -9,7 +9,13 @@
     _msg_value_msg`` on a minimal entity: two messages of a stateful code for the same context with
     symbolic values, unrelated traffic (another code, another zone, another device) handled in
     between, then the attribute read: equals the later message's value; array form: the element of
-    the asked zone; and, with the clock past twice the lifetime, the read gives unknown."""
+    the asked zone; and, with the clock past twice the lifetime, the read gives unknown.
+
+Entity level (checks/gwfresh.py): a real Gateway with a controller and zones 00-02 receives K state messages whose
+form (array / per-zone, 30C9 / 2309 / 2349), zone, value and time of receipt are solver variables, through the real
+dispatcher and MultiZone/Zone handlers; all zones' temperature and setpoint are then read at a solver-chosen time:
+the newest live message covering a zone is what is reported, and a value is reported only while a message
+carrying it is younger than twice its lifetime plus the grace."""
 from __future__ import annotations
 
 import os
@@ -22,10 +28,13 @@ PROPERTY = "C14"
 LEVEL = "other"
 EXPLANATION = __doc__
 FUNCTIONS = ["ramses_tx.packet:pkt_lifespan", "ramses_tx.message:Message._expired", "ramses_rf.entity_base:_MessageDB._handle_msg", "ramses_rf.entity_base:_MessageDB._msg_value",
-             "ramses_rf.entity_base:_MessageDB._msg_value_code", "ramses_rf.entity_base:_MessageDB._msg_value_msg"]
-BOUNDS = {"quick": {"expiry": "one logged frame per I/RP verb/code pair; clock offsets two solver reals 0 <= e1 <= e2 <= 10^7 s; 1F09 count-down all 65536 values", "freshness": "2 messages + 3 unrelated ones, 4 stateful codes, dict and array forms"},
-          "thorough": {"expiry": "up to 3 logged frames per pair", "freshness": "7 stateful codes"}}
-OUTSIDE = ["routing of packets to zone/dhw entities (MultiZone._handle_msg etc.): entity layer", "the SQLite message index (gwy._zzz): disabled as in the default configuration"]
+             "ramses_rf.entity_base:_MessageDB._msg_value_code", "ramses_rf.entity_base:_MessageDB._msg_value_msg", "ramses_rf.entity_base:_MessageDB._delete_msg",
+             "ramses_rf.gateway:Gateway._msg_handler", "ramses_rf.dispatcher:process_msg", "ramses_rf.system.heat:MultiZone._handle_msg", "ramses_rf.system.zones:Zone._handle_msg", "ramses_rf.system.zones:Zone._msg_value",
+             "ramses_rf.system.zones:Zone.temperature", "ramses_rf.system.zones:Zone.setpoint"]
+BOUNDS = {"quick": {"expiry": "one logged frame per I/RP verb/code pair; clock offsets two solver reals 0 <= e1 <= e2 <= 10^7 s; 1F09 count-down all 65536 values", "freshness": "2 messages + 3 unrelated ones, 4 stateful codes, dict and array forms",
+                    "entity level": "real Gateway, zones 00-02; every ordered pair of the 6 message forms + 6 triples; per message: zone a solver digit, value a solver 16-bit word (0000-7EFE without 31FF), time of receipt a solver real (strictly increasing, <= 30000 s); read time a solver real <= 30000 s later; reads repeated K+2 times"},
+          "thorough": {"expiry": "up to 3 logged frames per pair", "freshness": "7 stateful codes", "entity level": "+ every triple of forms containing an array"}}
+OUTSIDE = ["routing to DHW / UFH circuits and the other stateful codes at entity level (000A, 12B0, 3150 ...: covered at the state-DB level only)", "the SQLite message index (gwy._zzz): disabled as in the default configuration"]
 STUBS = ["gateway: object with _dt_now() = receipt time + symbolic offset, _zzz = None, _loop.call_soon recording the deferred deletions (run after the read)",
          "entity: a _MessageDB subclass instance carrying only id/_gwy/_msgs_/_msgz_"]
 ASSUMPTIONS = ["lifetime L of a message = what pkt_lifespan assigns to its kind (payload-derived for sync-cycle packets): the property fixes the 1x / 2x+3 s thresholds, not the table"]
@@ -390,6 +399,9 @@ def queries(tier, seed):
         c.check(symx.s_not(msg._expired), "canary")
 
     qs.append(Query("canary:expiry", canary, canary=True))
+    from checks import gwfresh
+
+    qs += gwfresh.queries(tier)
     only = os.environ.get("C14_ONLY")
     if only:
         qs = [q for q in qs if only in q.name or q.canary]
@@ -414,6 +426,10 @@ def replay(item):
     from ramses_tx.packet import Packet
 
     cex, prm, label = item["cex"], item["params"], item["label"]
+    if prm["h"] == "gwfresh":
+        from checks import gwfresh
+
+        return gwfresh.replay(item)
     if prm["h"] == "purge":
         age, L, got, want = run_purge(XEnv(cex=cex), prm["code"])
         return {"reproduced": got != want, "observed": f"{prm['code']}: expired array purged, newer per-zone message {float(age)} s old (lifetime {L} s): read {got!r}, message says {want!r}", "signature": "fresh: purging an expired message removes a newer one"}
